@@ -50,7 +50,7 @@ def crc_zero_prefix_tcs(rng, want=6):
         found = 0
         for apid in rng.sample(range(2048), 2048):
             for seq in range(16384):
-                hdr = [0x18 | (apid >> 8), apid & 0xFF, 0xC0 | (seq >> 8), seq & 0xFF, 0, 5 + n]
+                hdr = [0x18 | (apid >> 8), apid & 0xFF, 0xC0 | (seq >> 8), seq & 0xFF, 0, 6 + n]      # length field: 5 + n + 2 - 1
                 if crc16(hdr) == 0:
                     out.append({"apid": apid, "seq": seq, "ack": 15, "service": 17, "subservice": 1, "source": 0,
                                 "data": [rng.randrange(256) for _ in range(n)]})
@@ -61,12 +61,19 @@ def crc_zero_prefix_tcs(rng, want=6):
     # primary + secondary header: the 16-bit source ID can always be chosen to zero the running CRC
     for _ in range(want - len(out)):
         apid, seq, n = rng.randrange(2048), rng.randrange(16384), rng.choice([0, 2, 7])
-        pre = [0x18 | (apid >> 8), apid & 0xFF, 0xC0 | (seq >> 8), seq & 0xFF, 0, 5 + n, 0x2F, 17, 1]
+        pre = [0x18 | (apid >> 8), apid & 0xFF, 0xC0 | (seq >> 8), seq & 0xFF, 0, 6 + n, 0x2F, 17, 1]
         for src in range(65536):
             if crc16(pre + [src >> 8, src & 0xFF]) == 0:
                 out.append({"apid": apid, "seq": seq, "ack": 15, "service": 17, "subservice": 1, "source": src,
                             "data": [rng.randrange(256) for _ in range(n)]})
                 break
+    # guard: the prefixes searched above are the prefixes the packets really have
+    from ..ops_ecss import mk_tc
+    from ..core import MachineryError
+    for q in out:
+        raw = bytes(mk_tc(q, "ctor").pack())
+        if crc16(list(raw[:6])) != 0 and crc16(list(raw[:11])) != 0:
+            raise MachineryError(f"crc_zero_prefix_tcs: {q} has no zero running checksum after its headers")
     return out
 
 
